@@ -30,7 +30,7 @@ MAXROW, MAXCOL = 1048576, 16384
 # file models (the structure of MC_Decode!Model)
 # ---------------------------------------------------------------------------------------------
 OPT_DEFAULT = {"spans": False, "dim": False, "tn": True, "ent": "named", "spall": False, "rowr": True,
-               "applynf": "1", "dense": False}
+               "applynf": "1", "dense": False, "indent": False, "nosp": False}
 XFS = [{"id": 0, "custom": False, "code": ""}, {"id": 14, "custom": False, "code": ""},
        {"id": 164, "custom": True, "code": '0.0" <u>"'}, {"id": 2, "custom": False, "code": ""}]
 F0 = {"k": "none", "si": -1, "ht": False, "text": "", "toks": [], "ref": ""}
@@ -99,6 +99,24 @@ def kf_models():
     # KF8: no r= attributes
     out.append(model([cell(1, 1, "n", "1", fbits("1")), cell(1, 2, "str", "x"), cell(2, 1, "b", "1")],
                      opts={"rowr": False, "dense": True}))
+    return out
+
+
+def inline_run_models():
+    """runs of consecutive inline strings: the first <t> carries xml:space="preserve", the following ones do not (plain and
+    rich, with and without unprotected outer blanks), in one row and across rows, in compact and in indented markup; then
+    a <v> cell and one more inline string"""
+    out = []
+    for indent in (False, True):
+        for first in (plain(" a "), rich("x ", " y")):
+            for across in (False, True):
+                pos = [(1, 2), (2, 1), (4, 3), (4, 4), (5, 1)] if across else [(1, 1), (1, 2), (1, 3), (1, 4), (1, 5)]
+                follow = [plain("b"), rich("c", "d"), dict(plain(" e "), sp=False)]
+                cells = [cell(pos[0][0], pos[0][1], "inlineStr", isr=first)]
+                cells += [cell(r, c, "inlineStr", isr=it) for (r, c), it in zip(pos[1:4], follow)]
+                cells.append(cell(pos[4][0], pos[4][1], "str", "res", f=dict(F0, k="normal", ht=True, text="1+1")))
+                cells.append(cell(pos[4][0] + 1, 1, "inlineStr", isr=plain("after")))
+                out.append(model(cells, sst=[rich("r1 ", "r2"), plain(" p ")], opts={"indent": indent}))
     return out
 
 
@@ -175,6 +193,22 @@ def random_models(rng, count):
                     cells.append(cell(r, c, "", v, fbits(v), s=s, f=dict(F0, k="normal", ht=True, text=txt.strip(" ") or "1")))
                 else:
                     cells.append(cell(r, c, "", None, s=rng.choice([1, 2, 3])))
+            # a run of consecutive inline strings in its own rows: the first one with protected outer blanks
+            if not far and rng.random() < 0.5:
+                rr, cc = 15, rng.randint(1, 5)
+                for k in range(rng.randint(2, 5)):
+                    if k == 0:
+                        it = plain(" " + rtext(rng) + " ")
+                    elif rng.random() < 0.3:
+                        it = rich(*[rtext(rng) for _j in range(rng.randint(1, 3))])
+                    else:
+                        t = rtext(rng)
+                        it = plain("s" + t if (fbits(t) or t.upper() in ("TRUE", "FALSE") or t.upper().startswith("#")) else t)
+                    cells.append(cell(rr, cc, "inlineStr", isr=it))
+                    if rng.random() < 0.4:
+                        rr, cc = rr + 1, rng.randint(1, 5)
+                    else:
+                        cc += 1
             # a shared-formula block in its own rows
             if not far and rng.random() < 0.6:
                 for blk in range(rng.randint(1, 2)):
@@ -225,7 +259,8 @@ def random_models(rng, count):
         if rng.random() < 0.4:
             names = [{"name": rng.choice(["N_1", "caf\u00e9", "\u65e5\u672c", "x.y", "_a\\b"]), "text": "$A$1", "local": rng.choice([-1, 0])}]
         opts = {"spans": rng.random() < 0.5, "dim": rng.random() < 0.5, "tn": rng.random() < 0.5,
-                "ent": rng.choice(["named", "numeric"]), "spall": rng.random() < 0.3, "applynf": rng.choice(["1", "absent"])}
+                "ent": rng.choice(["named", "numeric"]), "spall": rng.random() < 0.3, "applynf": rng.choice(["1", "absent"]),
+                "indent": rng.random() < 0.3, "nosp": rng.random() < 0.1}
         m = {"sheets": sheets, "sst": sst, "xfs": list(XFS), "names": names, "opts": dict(OPT_DEFAULT, **opts)}
         out.append(m)
     return out
@@ -236,7 +271,9 @@ def random_models(rng, count):
 # ---------------------------------------------------------------------------------------------
 RAW_ABSENT = {"r": 0, "c": 0, "nr": False, "t": "", "s": -1, "hv": False, "vx": "", "v": "", "vt": "", "vb": "", "vi": -1,
               "his": False, "cr": False, "f": {"k": "none", "si": -1, "ht": False, "text": "", "toks": []}}
-OBS_ABSENT = {"k": "blank", "runs": [], "runsn": [], "b": "", "f": "", "hf": False, "fid": 0, "fmt": "General"}
+OBS_ABSENT = {"k": "blank", "runs": [], "runsn": [], "runst": [], "runstn": [], "b": "", "f": "", "hf": False, "fid": 0,
+              "fmt": "General"}
+XMLWS = " \t\r\n"
 BUILTIN_CODE_TO_ID = None
 
 
@@ -252,7 +289,9 @@ def obs_of(c):
         runs = [c["v"]]
     else:
         runs = []
-    return {"k": k, "runs": runs, "runsn": [norm_eol(x) for x in runs], "b": c["b"], "f": c["f"], "hf": c["hf"],
+    # projections of the same runs: line ends normalised (runsn), outer XML white space removed (runst), both (runstn)
+    return {"k": k, "runs": runs, "runsn": [norm_eol(x) for x in runs], "runst": [x.strip(XMLWS) for x in runs],
+            "runstn": [norm_eol(x).strip(XMLWS) for x in runs], "b": c["b"], "f": c["f"], "hf": c["hf"],
             "fid": c["fid"], "fmt": c["fmt"]}
 
 
@@ -326,6 +365,9 @@ def self_check(m, ext):
     if not ext["ok"] or len(ext["sheets"]) != len(m["sheets"]):
         bad("package / sheet count")
     mt = norm_eol if m["opts"].get("rawcr") else (lambda x: x)      # a literally written CR is delivered as LF
+    mv = mt                                                         # (<v> text is never trimmed for t="str")
+    if m["opts"].get("nosp"):                                       # unprotected outer white space of a <t> is delivered trimmed
+        mt = lambda x: mv(x).strip(XMLWS)
     if [x["runsx"] for x in ext["sst"]] != [[mt(r) for r in x["runs"]] for x in m["sst"]] or [x["rich"] for x in ext["sst"]] != [x["rich"] for x in m["sst"]]:
         bad("shared strings")
     if [(x["id"], x["custom"], x["code"]) for x in ext["xfs"]] != [(x["id"], x["custom"], x["code"]) for x in m["xfs"]]:
@@ -336,11 +378,12 @@ def self_check(m, ext):
         if len(ms["cells"]) != len(xs["cells"]):
             bad("cell count")
         for a, b in zip(ms["cells"], xs["cells"]):
-            same = (a["r"], a["c"], a["hv"], mt(a["v"]), a["his"], a["s"]) == (b["r"], b["c"], b["hv"], b["vx"], b["his"], b["s"]) \
+            same = (a["r"], a["c"], a["hv"], mv(a["v"]), a["his"], a["s"]) == (b["r"], b["c"], b["hv"], b["vx"], b["his"], b["s"]) \
                 and a["t"] in (b["t"], "n" if b["t"] == "" else b["t"]) \
                 and (a["f"]["k"], a["f"]["si"] if a["f"]["k"] == "shared" else -1, a["f"]["ht"], a["f"]["text"]) == \
                     (b["f"]["k"], b["f"]["si"] if b["f"]["k"] == "shared" else -1, b["f"]["ht"], b["f"]["text"]) \
-                and (not a["his"] or (a["isr"]["rich"], [mt(r) for r in a["isr"]["runs"]]) == (b["isr"]["rich"], b["isr"]["runsx"])) \
+                and (not a["his"] or (a["isr"]["rich"], [(mt(r).strip(XMLWS) if a["isr"].get("sp") is False else mt(r)) for r in a["isr"]["runs"]])
+                                     == (b["isr"]["rich"], b["isr"]["runsx"])) \
                 and (a["t"] not in ("", "n") or a["vb"] == b["vb"]) and (a["t"] != "s" or a["vi"] == b["vi"]) \
                 and (not (a["f"]["k"] == "shared" and a["f"]["ht"]) or a["f"]["toks"] == b["f"]["toks"])
             if not same:
@@ -360,7 +403,7 @@ def tlc_models(chk):
     quick = chk.tier == "quick"
     models = []
     t0 = time.time()
-    cfgs = ["MC_Decode_replay.cfg", "MC_Decode_replay_shared.cfg", "MC_Decode_replay_attrs.cfg"]
+    cfgs = ["MC_Decode_replay.cfg", "MC_Decode_replay_shared.cfg", "MC_Decode_replay_attrs.cfg", "MC_Decode_replay_inl.cfg"]
     if not quick:
         cfgs.append("MC_Decode_replay_d2.cfg")
     for cfg in cfgs:
@@ -465,7 +508,7 @@ def run(chk):
         vlib.tlc_mc("MC_Decode", "MC_Decode_thorough.cfg", workers=4, must_take=MUST_TAKE + ["AddSstItem"], timeout=3600, check=chk)
         vlib.tlc_mc("MC_Decode", "MC_Decode_shared_thorough.cfg", workers=4, must_take=MUST_TAKE + ["AddSharedBlock", "SetOpt"],
                     timeout=3600, check=chk)
-    models = kf_models() + tlc_models(chk) + random_models(chk.rng, 300 if quick else 6000)
+    models = kf_models() + inline_run_models() + tlc_models(chk) + random_models(chk.rng, 300 if quick else 6000)
     scripts = [{"kind": "gen", "model": m} for m in models] + [{"kind": "corpus", "path": p} for p in corpus_paths(chk)]
     stats = judge(chk, scripts)
     chk.extra["cells_judged"] = stats
